@@ -264,6 +264,12 @@ static void point_locked(int op, int force)
     g_steps++;
     if (g_steps > g_budget)
         abtv_fail("budget", ABTV_EXIT_BUDGET);
+    if ((g_steps & 31) == 0) {
+        /* virtual time also passes with activity, so that kernel-level timed
+         * waits expire even if somebody keeps the system busy */
+        g_vclock += g_tick;
+        fire_timers();
+    }
     if (op == OP_LOAD || op == OP_SYNC) {
         if (A[me].epoch != g_epoch) {
             A[me].epoch = g_epoch;
